@@ -1,7 +1,7 @@
 (* C07 — variable rules fire exactly when the spec condition is violated. *)
 From GT Require Import Visitor Validate.
 From GTS Require Import Annot WfSchema SpecRules SpecValues SpecValid.
-From GTP Require Import C07_proofs C07_graph_proofs.
+From GTP Require Import C07_proofs C07_graph_proofs C07_position_proofs.
 
 Theorem C07_unique_variable_names : forall s d,
   (run_alone R_UniqueVariableNames s d <> [] <-> violated R_UniqueVariableNames s d = true).
@@ -46,3 +46,31 @@ Theorem C07_no_unused_variables : forall s d, distinct_fragments d = true -> dis
   (run_alone R_NoUnusedVariables s d <> [] <-> violated R_NoUnusedVariables s d = true).
 Proof. exact no_unused_variables_iff. Qed.
 Print Assumptions C07_no_unused_variables.
+
+(* the rule: some variable is used, in the operation or in a transitively spread fragment, at a
+   position where IsVariableUsageAllowed fails for the operation's definition of it.
+   [defaults_const d] (C07_position_proofs): no variable occurs inside the default value of a
+   variable definition (DefaultValue : = Value[Const] in the grammar; the parser cannot produce
+   one).  Without it the equivalence is false (C07_position_needs_const_defaults): the rule also
+   records the variables met inside default values, as usages at the declared type of the
+   variable being defined, e.g.  query Q($a: Int = $b, $b: String) { f }  is reported.
+   The hypotheses [doc_types_proper d] and [negb (violated R_VariablesAreInputTypes s d)] are not
+   used by the proof (only the location type has to be an input type, which the well-formed
+   schema guarantees; a variable of unknown or non-input type is judged alike by both sides). *)
+Theorem C07_variables_in_allowed_position : forall s d,
+  wf_schema s = true -> doc_types_proper d = true ->
+  distinct_fragments d = true -> distinct_operations d = true ->
+  negb (violated R_VariablesAreInputTypes s d) = true ->
+  defaults_const d = true ->
+  (run_alone R_VariablesInAllowedPosition s d <> [] <-> violated R_VariablesInAllowedPosition s d = true).
+Proof. exact variables_in_allowed_position_iff. Qed.
+Print Assumptions C07_variables_in_allowed_position.
+
+Theorem C07_position_needs_const_defaults :
+  wf_schema cex_schema = true /\ doc_types_proper cex_doc = true /\
+  distinct_fragments cex_doc = true /\ distinct_operations cex_doc = true /\
+  negb (violated R_VariablesAreInputTypes cex_schema cex_doc) = true /\
+  run_alone R_VariablesInAllowedPosition cex_schema cex_doc <> [] /\
+  violated R_VariablesInAllowedPosition cex_schema cex_doc = false.
+Proof. exact position_needs_const_defaults. Qed.
+Print Assumptions C07_position_needs_const_defaults.
